@@ -39,8 +39,8 @@ def gen_members(rng, maxn=8):
     return members
 
 
-def is_zip_name(name):
-    return name.lower().endswith(ZIP_EXTS)
+def is_zip_name(name, exts=None):
+    return name.lower().endswith(tuple(exts) if exts else ZIP_EXTS)
 
 
 class Check:
@@ -64,11 +64,13 @@ class Check:
         world = gen.gen_tree(rng, [top], max_entries=rng.choice([2, 5, 10]), max_depth=3, kinds={"file": 6, "dir": 3, "symlink": 0.5}, adversarial=0.1)
         dirs = [n["path"] for n in world["nodes"] if n["type"] == "dir"]
         have = {n["path"] for n in world["nodes"]}
+        # the list of zip extensions is configuration: sometimes the user's config.toml replaces it
+        zip_exts = [".zip", ".pkg"] if (sub == "list" and rng.random() < 0.15) else None
         narc = rng.choice([1, 1, 2, 3]) if sub == "list" else rng.choice([1, 2])
         arcs = []
         for i in range(narc):
             d = rng.choice(dirs)
-            ext = rng.choice(["zip", "zip", "jar", "war", "ear", "ZIP", "Zip"])
+            ext = rng.choice(["zip", "zip", "jar", "war", "ear", "ZIP", "Zip"] + (["pkg", "PKG", "pkg"] if zip_exts else []))
             p = "%s/arc%d.%s" % (d, i, ext)
             members = gen_members(rng, 8 if sub == "list" else 3)
             if sub in ("trunc", "flip"):
@@ -94,7 +96,7 @@ class Check:
         c = rng.choice(CLOCKS)
         import datetime
         plan["clock"] = [int(datetime.datetime(*c, tzinfo=datetime.timezone.utc).timestamp()) * 10 ** 9, 0]
-        case = {"sub": sub, "world": world, "top": top, "plan": plan, "mode": rng.choice(["bfs", "dfs"]), "arcword": rng.choice(["archives", "arc"]), "tz": rng.choice(["UTC", "Europe/Berlin", "Asia/Kolkata", "America/New_York"])}
+        case = {"zip_exts": zip_exts, "sub": sub, "world": world, "top": top, "plan": plan, "mode": rng.choice(["bfs", "dfs"]), "arcword": rng.choice(["archives", "arc"]), "tz": rng.choice(["UTC", "Europe/Berlin", "Asia/Kolkata", "America/New_York"])}
         if sub == "list":
             case["variant"] = rng.choice(["plain", "plain", "where", "order", "limit", "where_limit", "order_limit"])
             case["N"] = rng.randint(1, 12)
@@ -138,14 +140,14 @@ class Check:
             yield c
 
     # ------------------------------------------------------------------ model
-    def member_rows(self, world, top, nm):
+    def member_rows(self, world, top, nm, exts=None):
         """Expected (path, name, size, is_dir, modified, mode-or-None) for every member of every searched archive."""
         out = []
         sources = []
         for n in world["nodes"]:
-            if n["type"] == "file" and "zip" in n and is_zip_name(n["path"].rsplit("/", 1)[-1]) and "trunc" not in n and not n.get("flip"):
+            if n["type"] == "file" and "zip" in n and is_zip_name(n["path"].rsplit("/", 1)[-1], exts) and "trunc" not in n and not n.get("flip"):
                 sources.append((n["path"], n))
-            elif n["type"] == "symlink" and is_zip_name(n["path"].rsplit("/", 1)[-1]):
+            elif n["type"] == "symlink" and is_zip_name(n["path"].rsplit("/", 1)[-1], exts):
                 t = nm.get(os.path.normpath(os.path.join(os.path.dirname(n["path"]), n["target"])))
                 if t is not None and t["type"] == "file" and "zip" in t and "trunc" not in t and not t.get("flip"):
                     sources.append((n["path"], t))
@@ -197,10 +199,12 @@ class Check:
         plan = dict(case["plan"], budget=4000 + 400 * len(world["nodes"]) + 40 * sum(len(n["zip"]["members"]) for n in world["nodes"] if "zip" in n))
         with ctx.sandbox(world) as sb:
             gen.validate_model(world, sb.root)
-            r0 = sb.run([q0], plan=plan, tz=case["tz"])
-            r1 = sb.run([q1], plan=plan, tz=case["tz"])
+            exts = case.get("zip_exts")
+            config = ("is_zip_archive = [%s]\n" % ", ".join('"%s"' % e for e in exts)) if exts else None
+            r0 = sb.run([q0], plan=plan, tz=case["tz"], config=config)
+            r1 = sb.run([q1], plan=plan, tz=case["tz"], config=config)
             if len(ctx.samples) < 2:
-                ctx.samples.append({"argv": [q1], "without_archives": q0, "outcome": r1.summary()})
+                ctx.samples.append({"argv": [q1], "without_archives": q0, "config.toml": config, "outcome": r1.summary()})
             for r, q in ((r0, q0), (r1, q1)):
                 bad = self.abnormal(r)
                 if bad or r.status != 0:
@@ -209,13 +213,13 @@ class Check:
                     return viols
             rows0 = r0.rows(len(cols))
             rows1 = r1.rows(len(cols))
-            members = self.member_rows(world, top, nm)
+            members = self.member_rows(world, top, nm, exts)
             if var in ("where", "where_limit"):
                 members = [m for m in members if int(m[2]) > 9]
             if var == "order_limit":
                 # relational: the first N keys of fselect's own unlimited ordered run with archives
                 qu = q1.split(" limit")[0] + " into list"
-                ru = sb.run([qu], plan=plan, tz=case["tz"])
+                ru = sb.run([qu], plan=plan, tz=case["tz"], config=config)
                 if self.abnormal(ru) or ru.status != 0:
                     viols.append(Violation(PROP, "C19.run", ["C19.run", "abnormal_end", var], {"query": qu, "outcome": ru.summary()}))
                     return viols
